@@ -27,10 +27,10 @@ def exAttr : Val :=
 /-- the hypotheses of C01_roundtrip hold for it … -/
 theorem GenC01_example_wf : WFv (.struct KmipGen.sd_Attribute) exAttr := by
   simp only [exAttr, WFv, KmipGen.sd_Attribute, SD.fields, WFflds, WFfv, Fld.slice, Fld.ty, Fld.ignored, Fld.tag, Fld.skip]
-  refine ⟨⟨trivial, by decide, trivial, by decide⟩, ⟨trivial, by decide, trivial, by decide⟩, ⟨trivial, by decide, ?_, ?_⟩, trivial⟩
+  refine ⟨⟨trivial, by decide, Or.inr ⟨trivial, by decide⟩⟩, ⟨trivial, by decide, Or.inr ⟨trivial, by decide⟩⟩, ⟨trivial, by decide, ?_, ?_⟩, trivial⟩
   · exact ⟨0, _, .one (.text exAttrName), .str exAttrName, .mk (.str exAttrName) true (.struct KmipGen.sd_Name), rfl, rfl, rfl, rfl, rfl, rfl⟩
   · simp only [KmipGen.sd_Name, WFflds, WFfv, WFv, Fld.slice, Fld.ty, Fld.ignored, Fld.tag, Fld.skip]
-    exact ⟨⟨trivial, by decide, trivial, by decide⟩, ⟨trivial, by decide, trivial, by decide⟩, trivial⟩
+    exact ⟨⟨trivial, by decide, Or.inr ⟨trivial, by decide⟩⟩, ⟨trivial, by decide, Or.inr ⟨trivial, by decide⟩⟩, trivial⟩
 
 theorem GenC01_example_small : (canonTop KmipGen.sd_Attribute exAttr).Small = true := by decide
 
